@@ -37,13 +37,17 @@ using std::string;
 ///    The name of the attribute.
 /// @param[in]  attr_value
 ///    The value of the attribute.
+/// @return
+///    The id of the new attribute, can be used to remove exactly this
+///    attribute again with removeAttributeById().
 /// @since  1.15.0, 19.06.2016
-void LogAttributesContainer::addAttribute( const string& attr_name,
+size_t LogAttributesContainer::addAttribute( const string& attr_name,
    const string& attr_value)
 {
 
-   mAttributes.push_back( attr_pair_t( attr_name, attr_value));
+   mAttributes.push_back( attr_pair_t( attr_name, attr_value, mNextId));
 
+   return mNextId++;
 } // LogAttributesContainer::addAttribute
 
 
@@ -112,6 +116,28 @@ void LogAttributesContainer::removeAttribute( const string& attr_name)
    } // end for
 
 } // LogAttributesContainer::removeAttribute
+
+
+
+/// Removes exactly the attribute with the given id, no matter if other
+/// attributes with the same name were added afterwards.<br>
+/// Used for attributes that are bound to a scope.
+///
+/// @param[in]  attr_id  The id that addAttribute() returned.
+/// @since  x.y.z, 01.10.2026
+void LogAttributesContainer::removeAttributeById( size_t attr_id)
+{
+
+   for (auto it = mAttributes.begin(); it != mAttributes.end(); ++it)
+   {
+      if (std::get< 2>( *it) == attr_id)
+      {
+         mAttributes.erase( it);
+         break;   // for
+      } // end if
+   } // end for
+
+} // LogAttributesContainer::removeAttributeById
 
 
 
